@@ -15,6 +15,13 @@ PatRecs(u) == LET S == SetToSeq(PatSetOf(0))
 InjRecs(u) == LET B == SetToSeq(PatSetOf(0))
                S == SetToSeq(UNION { { [ast |-> x, base |-> b.ast, ng |-> b.ng] : x \in {y \in Injections(b.ast) : InjectOK(y)} } : b \in PatSetOf(0) })
            IN [q \in 1..Len(S) |-> [id |-> q, ast |-> S[q].ast, base |-> S[q].base, ng |-> S[q].ng]]
+\* two-level nesting of contexts: the seeded driver only picks the triples (outer context, inner context, filler) -- VH_PICKS --,
+\* the patterns are built here; ids of the inner level are shifted, clashes (context 36 copies its hole) are dropped
+Ctx2Recs(u) == LET PK == ndJsonDeserialize(IOEnv.VH_PICKS)
+                   E2(q) == Ctx(PK[q].i, Shift(Ctx(PK[q].j, Fillers[PK[q].f]), 1000))
+                   Distinct(e) == LET o == GroupOrder(e) IN Cardinality({o[j] : j \in 1..Len(o)}) = Len(o)
+                   ok == SelectSeq([q \in 1..Len(PK) |-> q], LAMBDA q : CtxOK(E2(q)) /\ Distinct(E2(q)))
+               IN [q \in 1..Len(ok) |-> [id |-> q, ast |-> Renumber(E2(ok[q])), ng |-> Len(GroupOrder(E2(ok[q]))), pick |-> <<PK[ok[q]].i, PK[ok[q]].j, PK[ok[q]].f>>]]
 Sig == CASE IOEnv.VH_SIG = "sig6" -> SIG6
          [] IOEnv.VH_SIG = "case4" -> <<"a", "A", "b", "B">>
          [] IOEnv.VH_SIG = "wide" -> <<"a", "E", "K", "T", "Q", "N">>
@@ -47,6 +54,7 @@ VARIABLE done
 Init == done = FALSE
 Next == /\ ~done /\ done' = TRUE
         /\ CASE What = "pats"  -> Out(PatRecs(0))
+             [] What = "ctx2" -> Out(Ctx2Recs(0))
              [] What = "inject" -> Out(InjRecs(0))
              [] What = "templates" -> Out(TplRecs(0))
              [] What = "escapes" -> Out(EscRecs(0))
